@@ -806,10 +806,16 @@ class _Helper:
         self.name, self.fn, self.cls, self.mname, self.static = name, fn, cls, mname, static
         self.classmethod = static == 'cls'
         a = fn.args
-        self.params = [x.arg for x in a.args]
+        self.params = [x.arg for x in a.posonlyargs + a.args]
+        self.posonly = {x.arg for x in a.posonlyargs}
         self.defaults = {}
         for p, d in zip(reversed(self.params), reversed(a.defaults)):
             self.defaults[p] = d
+        self.kwonly = [x.arg for x in a.kwonlyargs]
+        for p, d in zip(a.kwonlyargs, a.kw_defaults):
+            if d is not None:
+                self.defaults[p.arg] = d
+        self.vararg = a.vararg.arg if a.vararg else None
         if cls is not None and (not static or static == 'cls'):
             self.params = self.params[1:]
         body = _body(fn)
@@ -820,8 +826,14 @@ class _Helper:
 
 def _eligible_helper(fn, cls):
     a = fn.args
-    if a.vararg or a.kwarg or a.kwonlyargs or a.posonlyargs:
+    if a.kwarg:
         return None
+    if a.vararg:
+        # *rest is supported when the body only iterates over it
+        uses = [x for x in ast.walk(fn) if isinstance(x, ast.Name) and x.id == a.vararg.arg]
+        loops = [x for x in ast.walk(fn) if isinstance(x, ast.For) and isinstance(x.iter, ast.Name) and x.iter.id == a.vararg.arg]
+        if len(uses) != len(loops) or not loops:
+            return None
     decos = [_txt(d) for d in fn.decorator_list]
     static = decos == ['staticmethod']
     if decos == ['classmethod'] and a.args and a.args[0].arg == 'cls':
@@ -853,16 +865,24 @@ def _bind(h, call):
     args = list(call.args)
     if any(isinstance(a, ast.Starred) for a in args) or any(k.arg is None for k in call.keywords):
         return None
-    if len(args) > len(h.params):
-        return None
     m = {}
+    if len(args) > len(h.params):
+        if not getattr(h, 'vararg', None) or not all(_atomic(a) for a in args[len(h.params):]):
+            return None
+        rest = ast.Tuple(elts=args[len(h.params):], ctx=ast.Load())
+        rest._pdsa_from_vararg = True
+        m[h.vararg] = rest
+    elif getattr(h, 'vararg', None):
+        rest = ast.Tuple(elts=[], ctx=ast.Load())
+        rest._pdsa_from_vararg = True
+        m[h.vararg] = rest
     for p, a in zip(h.params, args):
         m[p] = a
     for k in call.keywords:
-        if k.arg not in h.params or k.arg in m:
+        if (k.arg not in h.params and k.arg not in getattr(h, 'kwonly', ())) or k.arg in m or k.arg in getattr(h, 'posonly', ()):
             return None
         m[k.arg] = k.value
-    for p in h.params:
+    for p in h.params + list(getattr(h, 'kwonly', ())):
         if p not in m:
             if p in h.defaults:
                 m[p] = h.defaults[p]
@@ -1166,11 +1186,14 @@ class _Inliner:
                 mapping['cls'] = ast.Call(func=ast.Name(id='type', ctx=ast.Load()), args=[ast.Name(id='self', ctx=ast.Load())], keywords=[])
             elif bt != 'cls':
                 mapping['cls'] = call.func.value
-        nonatomic = [p for p in h.params if not _atomic(m[p])]
+        all_params = h.params + list(getattr(h, 'kwonly', ())) + ([h.vararg] if getattr(h, 'vararg', None) else [])
+        nonatomic = [p for p in all_params if not _atomic(m[p]) and not getattr(m[p], '_pdsa_from_vararg', False)]
         hbody = _body(h.fn)
-        for p in h.params:
+        for p in all_params:
             a = m[p]
-            if _atomic(a) and p not in h.stored:
+            if getattr(a, '_pdsa_from_vararg', False) and p not in h.stored:
+                mapping[p] = a                # the tuple of extra positional arguments (atomic elements): only iterated over
+            elif _atomic(a) and p not in h.stored:
                 mapping[p] = a
             elif len(nonatomic) == 1 and p not in h.stored and hbody and _single_early_load(hbody, p):
                 mapping[p] = a                # evaluated once, first thing in the helper: same order of evaluation
@@ -3062,6 +3085,41 @@ def refold_exact_type_fast_paths(trees, base, log):
                 block(fn.body, [])
 
 
+def unroll_vararg_loops(trees, log):
+    """`for x in (A, B): S` where the tuple is what an inlined helper received as *rest (atomic elements): S once per element, in order."""
+    n = 0
+
+    def block(stmts):
+        nonlocal n
+        out = []
+        for st in stmts:
+            for field in ('body', 'orelse', 'finalbody'):
+                v = getattr(st, field, None)
+                if isinstance(v, list) and v and isinstance(v[0], ast.stmt) and not isinstance(st, (ast.FunctionDef, ast.AsyncFunctionDef, ast.ClassDef)):
+                    setattr(st, field, block(v))
+            if isinstance(st, ast.Try):
+                for h in st.handlers:
+                    h.body = block(h.body)
+            if isinstance(st, ast.For) and isinstance(st.iter, ast.Tuple) and getattr(st.iter, '_pdsa_from_vararg', False) and isinstance(st.target, ast.Name) \
+                    and not st.orelse and not any(isinstance(x, (ast.Break, ast.Continue)) for b in st.body for x in ast.walk(b)) \
+                    and not any(isinstance(x, ast.Name) and x.id == st.target.id and isinstance(x.ctx, ast.Store) for b in st.body for x in ast.walk(b)):
+                for el in st.iter.elts:
+                    for b in st.body:
+                        nb = _Subst({st.target.id: el}, {}).visit(copy.deepcopy(b))
+                        ast.fix_missing_locations(nb)
+                        out.append(nb)
+                n += 1
+                continue
+            out.append(st)
+        return out
+    for tree in trees.values():
+        for fn in ast.walk(tree):
+            if isinstance(fn, (ast.FunctionDef, ast.AsyncFunctionDef)):
+                fn.body = block(fn.body) or [ast.Pass()]
+    if n:
+        log.append(f'N7 {n} loop(s) over the *rest arguments of an inlined helper unrolled')
+
+
 def _paths_read(e):
     """texts of the attribute / subscript access paths read by e"""
     out = set()
@@ -4323,6 +4381,7 @@ def run(trees, baseline=None):
     unroll_table_loops(trees, base, log)
     inline_yield_sequences(trees, base, log)
     inline_helpers(trees, base, log)
+    unroll_vararg_loops(trees, log)
     for t in trees.values():                      # getattr(x, 'literal') / f(*(literal tuple)) / (lambda ..)(..) exposed by constant arguments of inlined helpers
         if any(isinstance(x, ast.Call) and ((isinstance(x.func, ast.Name) and x.func.id == 'getattr') or isinstance(x.func, ast.Lambda)
                                            or any(isinstance(a, ast.Starred) for a in x.args)) for x in ast.walk(t)):
